@@ -218,7 +218,7 @@ pub fn small_box(obs: &mut Obs, thorough: bool, mut check_one: impl FnMut(&Query
 
 /// flat containers at and around size thresholds (255 .. 70 000 elements, 17 .. 1025 members):
 /// expected index sequences are computed arithmetically, locations by address, paths literally
-fn large_flat(obs: &mut Obs, thorough: bool) -> Res {
+pub fn large_flat(obs: &mut Obs, thorough: bool) -> Res {
     let widths: Vec<usize> = if thorough {
         vec![15, 16, 17, 31, 32, 33, 63, 64, 65, 127, 128, 129, 255, 256, 257, 511, 512, 513, 999, 1000, 1001, 1023, 1024, 1025, 4095, 4096, 4097, 32767, 32768, 65535, 65536, 65537, 70000, 131073]
     } else {
@@ -236,6 +236,7 @@ fn large_flat(obs: &mut Obs, thorough: bool) -> Res {
             ("$..*".to_string(), all.clone()),
             ("$[?@ >= 0]".to_string(), all.clone()),
             (format!("$[?@ == {}]", w - 1), vec![w - 1]),
+            (format!("$[?@ == 1 || @ > {}]", w as i64 - 4), vec![1usize].into_iter().chain(w.saturating_sub(3)..w).filter(|i| *i < w).collect::<std::collections::BTreeSet<usize>>().into_iter().collect()),
             ("$[-1]".to_string(), vec![w - 1]),
             (format!("$[{}]", w - 1), vec![w - 1]),
             (format!("$[{}]", w), vec![]),
